@@ -31,3 +31,58 @@ package remote
 //@   iterates walkFn over reg where allRegion.b <= reg.b && reg.b <= allRegion.e && reg.b < b.size && reg.b <= reg.e && aligned(reg.b, b.chunkSize) && reg.e == min(reg.b + b.chunkSize - 1, b.size - 1)
 //@   loop 0 invariant[C06] i >= allRegion.b && aligned(i, b.chunkSize) && aligned(allRegion.b, b.chunkSize)
 //@   loop 0 decreases min(allRegion.e, b.size) - i + b.chunkSize
+
+//@ func (rs *regionSet) add
+//@   props C06,C04
+//@   modifies rs.rs, heap("E:fs/remote.region")
+//@   ensures[C06] len(rs.rs) >= 1
+//@ func superRegion
+//@   props C06,C04
+//@   requires len(regs) > 0
+
+// ---- C18: headers configured for a registry host are sent to that host's blob URL only ----
+// owner(h): the blob URL a configured header set belongs to (uninterpreted; established where the
+// fetcher is built from a RegistryHost). A header set may accompany a request to u iff it is nil or owner(h) == u.
+//@ uf owner(ref) string
+//@ pure mayCarry(h ref, u string) bool = h == nil || owner(h) == u
+//@ ghost reqURL map[ref]string
+//@ ghost hdrFrom map[ref]ref
+//@ func net/http.NewRequestWithContext
+//@   trusted
+//@   modifies reqURL[*]
+//@   ensures err == nil ==> result0 != nil && reqURL[ref(result0)] == url
+//@   ensures forall r ref :: r != ref(result0) ==> reqURL[r] == old(reqURL[r])
+//@ func maps.Copy
+//@   trusted
+//@   modifies hdrFrom[*]
+//@   ensures hdrFrom[ref(dst)] == ref(src)
+//@   ensures forall r ref :: r != ref(dst) ==> hdrFrom[r] == old(hdrFrom[r])
+//@ func interface net/http.RoundTripper.RoundTrip
+//@   requires[C18] a0 != nil && mayCarry(hdrFrom[ref(a0.Header)], reqURL[ref(a0)])
+//@   ensures result1 == nil ==> result0 != nil && result0.Body != nil
+//@   params a0
+
+//@ func fs/metrics/common.MeasureLatencyInMilliseconds
+//@   trusted
+//@   ensures true
+//@ func redirect
+//@   props C18
+//@   requires tr != nil && mayCarry(ref(header), blobURL)
+//@   ensures[C18] err == nil ==> mayCarry(ref(withHeader), url) && (url != blobURL ==> withHeader == nil)
+//@ func getSize
+//@   props C18
+//@   requires tr != nil && mayCarry(ref(header), url)
+//@ type httpFetcher
+//@   guards[C18] urlMu: url, header
+//@   invariant[C18] urlMu: mayCarry(ref(self.header), self.url)
+//@ func (f *httpFetcher) refreshURL
+//@   props C18
+//@   requires f.tr != nil && mayCarry(ref(f.orgHeader), f.blobURL)
+//@ func (f *httpFetcher) check
+//@   props C18
+//@   requires f.tr != nil && mayCarry(ref(f.orgHeader), f.blobURL)
+//@ func (f *httpFetcher) fetch
+//@   props C18
+//@   requires f.tr != nil && mayCarry(ref(f.orgHeader), f.blobURL)
+//@   loop 0 invariant rangeidx >= 0 ==> len(s.rs) >= 1
+//@   loop 1 invariant rangeidx >= 0 ==> len(ranges) >= 1
